@@ -395,7 +395,10 @@ def run_scale(case, failures, hsh):
             d = {'date(inside)': datetime.datetime(2010, 7, 1), 'date(inside2)': datetime.datetime(2010, 3, 1, 12), 'date(before)': datetime.datetime(2009, 6, 1),
                  'date(after)': datetime.datetime(2012, 1, 1)}[op]
             fc.scale_to_test_date(d)
+        totals.append((float(fc.sum()), float(fc.event_count), float(numpy.sum(fc.data))))     # the total is READ after every operation
         return numpy.array(fc.data, dtype=float)
+
+    totals = []
 
     def canon(fc):
         return hashlib.sha1(numpy.array(fc.data, dtype=float).tobytes()).hexdigest()
@@ -420,6 +423,11 @@ def run_scale(case, failures, hsh):
         t = float(obj.sum())
         if abs(float(numpy.sum(obj.spatial_counts())) - t) > 1e-12 * t or abs(float(numpy.sum(obj.magnitude_counts())) - t) > 1e-12 * t:
             failures.append(Fail('GriddedForecast|marginals-do-not-sum-to-total|scaled', f'history {list(hist)} {op}', rep))
+        if totals:
+            s_, ec_, ds_ = totals[-1]
+            if abs(s_ - ds_) > 1e-12 * abs(ds_) or abs(ec_ - ds_) > 1e-12 * abs(ds_) or abs(t - float(numpy.sum(obs))) > 1e-12 * abs(t):
+                failures.append(Fail('GriddedForecast.sum|total-is-not-the-sum-of-the-current-data|scaled',
+                                     f'history {list(hist)} then {op}: sum()={s_!r} event_count={ec_!r} but data sums to {ds_!r}', rep))
         if op in ('scale(0.5)', 'scale(2)', 'scale(1)'):
             f = float(op[6:-1])
             if not numpy.allclose(obs, orig * f, rtol=1e-15, atol=0):
